@@ -197,19 +197,23 @@ def generate():
 # ---------------------------------------------------------------- expression trees
 CONSTS = [(1, 1), (2, 1), (3, 1), (1, 2)]
 BIN = ["add", "sub", "mul", "div"]
-UN = ["neg", "pow2", "pow3"]
+UN = ["neg", "pow2", "pow3", "npow1", "npow2"]      # npow: a^-1, a^-2 written with a negative integer exponent
 
 
 def size(e):
     if e[0] in ("c", "v"):
         return 1
-    if e[0] in ("neg", "pow"):
+    if e[0] in ("neg", "pow", "npow"):
         return 1 + size(e[1])
     return 1 + size(e[1]) + size(e[2])
 
 
 def mk_un(op, a):
-    return ("neg", a) if op == "neg" else ("pow", a, 2 if op == "pow2" else 3)
+    if op == "neg":
+        return ("neg", a)
+    if op.startswith("npow"):
+        return ("npow", a, int(op[-1]))
+    return ("pow", a, 2 if op == "pow2" else 3)
 
 
 def enum_trees(n_nodes, atoms, memo):
@@ -256,8 +260,8 @@ def subst(e, f):
         return e
     if e[0] == "neg":
         return ("neg", subst(e[1], f))
-    if e[0] == "pow":
-        return ("pow", subst(e[1], f), e[2])
+    if e[0] in ("pow", "npow"):
+        return (e[0], subst(e[1], f), e[2])
     if e[0] == "fn":
         return ("fn", e[1], subst(e[2], f))
     return (e[0], subst(e[1], f), subst(e[2], f))
@@ -272,6 +276,8 @@ def to_sx(e):
         return ["neg", to_sx(e[1])]
     if e[0] == "pow":
         return ["pow", to_sx(e[1]), e[2]]
+    if e[0] == "npow":      # a^-k is 1/(a^k) for the exact oracle
+        return ["div", ["c", 1, 1], ["pow", to_sx(e[1]), e[2]]]
     if e[0] == "fn":
         return ["fn", e[1], to_sx(e[2])]
     return [e[0], to_sx(e[1]), to_sx(e[2])]       # incl. ("gpow", base, exponent): only for replay records, never sent to the model
@@ -286,6 +292,8 @@ def render(e, var):
         return "(-(" + render(e[1], var) + "))"
     if e[0] == "pow":
         return "((" + render(e[1], var) + ")^" + str(e[2]) + ")"
+    if e[0] == "npow":
+        return "((" + render(e[1], var) + ")^-" + str(e[2]) + ")"
     if e[0] == "fn":
         return e[1] + "(" + render(e[2], var) + ")"
     op = {"add": "+", "sub": "-", "mul": "*", "div": "%", "gpow": "^"}[e[0]]
@@ -324,6 +332,8 @@ def dual_eval(e, pt, n, info):
     if t == "neg":
         a = dual_eval(e[1], pt, n, info)
         return Dual(-a.v, [-x for x in a.g], a.m, a.mg)
+    if t == "npow":
+        return dual_eval(("div", ("c", 1, 1), ("pow", e[1], e[2])), pt, n, info)
     if t == "pow":
         a = dual_eval(e[1], pt, n, info)
         k = e[2]
@@ -533,6 +543,26 @@ for case in cases:
         continue
     for ev in case["evals"]:
         item = {"label": ev["label"]}
+        if "bitexact" in ev:
+            # a function that cannot even be EVALUATED at the point (a defect of an operator, not of differentiation) is not a C06 case
+            be0 = ev["bitexact"]
+            try:
+                saved0 = {}
+                for name, base in be0["params"]:
+                    try:
+                        saved0[name] = k[name]
+                    except KeyError:
+                        saved0[name] = None
+                    k[name] = np.array(base, dtype=float) if np.ndim(base) else float(base)
+                fval(k, be0["call"])
+                for name, v in saved0.items():
+                    k[name] = v
+            except Exception as e:
+                for name, v in saved0.items():
+                    k[name] = v
+                item["skipped"] = "plain evaluation raises " + type(e).__name__ + ": " + str(e)[:100]
+                res["evals"].append(item)
+                continue
         try:
             r = k(ev["expr"])
             item["value"] = flat(r)
@@ -914,6 +944,9 @@ def run(tier, replay=None):
                     chk.count("distinct_nontrivial")
                 rec = {"backend": b, "form": label, "defs": cs["defs"], "expr": ev["expr"],
                        "tree": [to_sx(e) for e in c["exprs"]], "point": [str(p) for p in cs["point"]]}
+                if "skipped" in item:
+                    chk.count("skipped_function_not_evaluable_at_point")
+                    continue
                 if "error" in item:
                     prop_fail.append((dict(rec, what="operator raised", error=item["error"]), "error"))
                     continue
@@ -988,12 +1021,12 @@ F_TORCH_NUMERIC = "C06-torch-backend-numeric-differentiation-evaluates-in-float3
 def finding_class(rec):
     """torch backend, NUMERIC path (p∇f always; ∂ when torch's jacobian raised and the code fell back silently): the result is a
     numpy float64 array although the backend is torch, and the error is what float32 rounding of f explains
-    (|err| <= 2^-23*|f|*k/(2 eps) with k <= 4 operations ~ 0.3*M) — cf. C06_float32_evaluation_refuted."""
+    (|err| <= 2^-23*|f|*k/(2 eps) = 0.06*k*|f| with k <= 16 rounding steps, nested powers included, ~ 1.0*M) — cf. C06_float32_evaluation_refuted."""
     if rec.get("backend") == "torch" and rec.get("what") == "value differs from the exact derivative":
         kind = rec.get("kind")
         par = rec.get("parameter", 0)
         k = kind[par] if isinstance(kind, list) else kind
-        if k == "ndarray:float64" and abs(rec["got"] - rec["exact_float"]) <= 0.3 * rec["magnitude_of_f"] + 1e-4 * rec["magnitude_of_derivative"]:
+        if k == "ndarray:float64" and abs(rec["got"] - rec["exact_float"]) <= 1.0 * rec["magnitude_of_f"] + 1e-4 * rec["magnitude_of_derivative"]:
             return F_TORCH_NUMERIC
     return None
 
